@@ -21,3 +21,4 @@ open Just.Props.C02
 #print axioms failstop_all
 #print axioms runAssigns_stops
 #print axioms runInvs_stops
+#print axioms confirm_accepts_iff
